@@ -312,9 +312,11 @@ func main() {
 	start := time.Now()
 	scratch := mkScratch()
 	data := dataScratch()
-	defer os.RemoveAll(scratch)
-	defer os.RemoveAll(data)
 	cleanup := func() {
+		if os.Getenv("VERIF_KEEP") != "" {
+			fmt.Println("kept scratch:", scratch, data)
+			return
+		}
 		os.RemoveAll(scratch)
 		os.RemoveAll(data)
 	}
